@@ -61,7 +61,7 @@ package proxy
 
 //@ contract (*proxyIDRingBuffer).AggregateUpTo
 //@   shape sig=(b *proxyIDRingBuffer)(watermark int64)( map[history.ClusterShardID]int64, int);loops=for3;lits=0;fv=
-//@   props C05 C01
+//@   props C05 C01 C04
 //@   requires b.wf()
 //@   ensures  @count: result1 == ite(b.size == 0 || watermark < b.startProxyID, 0, min(watermark - b.startProxyID + 1, int64(b.size)))
 //@   ensures  @fresh: fresh(result0)
